@@ -108,9 +108,33 @@ def engine_quirk(ex, case, ref=None):
         if any(has_op(e, {"str.join"}) for s in case.get("steps", []) for e in step_exprs(s)):
             # the SQLite library of this sandbox predates string_agg / ORDER BY inside aggregates (3.44)
             return "sqlite_without_string_agg"
+    if exc_name(ex) == "OperationalError" and "parser stack overflow" in msg:
+        return "sqlite_parser_stack"  # expression nesting beyond the SQLite parser's stack (thorough-tier depths)
+    if exc_name(ex) == "InvalidOperationError" and "conversion from" in msg and "failed" in msg and (
+            "NaN" in msg or "inf" in msg):
+        return "nan_or_inf_to_int"  # NaN / infinity are outside the value domain (DESIGN 4.2); Polars refuses the cast
     if exc_name(ex) == "InvalidOperationError" and "joining with repeated key names" in msg:
         return "polars_repeated_join_key"  # Polars limitation on join keys (join docstring note)
     return None
+
+
+def sqlite_full_join_quirk(case, rv):
+    """SQLite 3.40 (the only executing SQL engine here) returns rows that the WHERE clause excludes when a SELECT with a
+    FULL OUTER JOIN and a WHERE is an operand of a compound SELECT inside a subquery (`SELECT * FROM (q UNION ALL q)`
+    where q alone and `q UNION ALL q` at top level are correct): engine bug, DESIGN 4.15 (h).  Shape: a union with an
+    operand whose lineage has a full join followed by a filter."""
+    lin = lineage(case, rv)
+    for s in lin:
+        if s["verb"] != "union":
+            continue
+        for side in (s["in"], s["right"]):
+            seen_full = False
+            for p in lineage(case, side):
+                if p["verb"] == "join" and p.get("how") == "full":
+                    seen_full = True
+                if seen_full and p["verb"] == "filter":
+                    return True
+    return False
 
 
 def is_refusal(ex):
@@ -267,6 +291,10 @@ def examine_pipeline(case, out: Outcome, *, backends=("polars", "sqlite"), ref_c
                     out.count("engine_quirk:polars_optimizer")
                     run.frames[(kind, rv)] = build.export_polars_noopt(b.vars[rv])
                     continue
+                if kind == "sqlite" and sqlite_full_join_quirk(run.case2, rv):
+                    out.count("engine_quirk:sqlite_full_join_in_compound_subquery")
+                    run.frames.pop((kind, rv), None)
+                    continue
                 where = first_divergence(run, kind, rv) if localize else "?"
                 if run.prefix_quirk:
                     # an intermediate table of this lineage already trips an engine bug: what the engine makes of the
@@ -287,6 +315,9 @@ def examine_pipeline(case, out: Outcome, *, backends=("polars", "sqlite"), ref_c
                 pl_tbl = run.built["polars"].vars[rv]
                 if _noopt_agrees(pl_tbl, lambda d: differential_compare(run.ref.vars[rv], d, b)):
                     out.count("engine_quirk:polars_optimizer")
+                    continue
+                if sqlite_full_join_quirk(run.case2, rv):
+                    out.count("engine_quirk:sqlite_full_join_in_compound_subquery")
                     continue
                 where = first_diff_divergence(run, rv) if localize else "?"
                 out.fail("mismatch", f"differential:{mm.kind}:{where}", f"Polars vs SQLite at {rv}: {mm}", var=rv)
